@@ -55,6 +55,9 @@ func norm(p string) string {
 
 func (d *DCS) ev(op, path, arg, res string) {
 	w := d.T.W
+	if w.OnDcs != nil {
+		w.OnDcs(d.ID, op, path, res)
+	}
 	if !(w.Mute && (op == "get" || op == "children" || op == "connected" || op == "acquire")) {
 		w.Log = append(w.Log, Event{Seq: len(w.Log) + 1, T: w.now(), Kind: "dcs", Op: op, Host: path, Arg: arg, Res: res, By: d.ID})
 	}
